@@ -44,6 +44,15 @@ def parse_results(text):
     return res
 
 
+def _key():
+    import hashlib
+    h = hashlib.sha256(engine.src_hash().encode())
+    for f in sorted(os.listdir(os.path.join(KANI_DIR, 'src'))):
+        h.update(open(os.path.join(KANI_DIR, 'src', f), 'rb').read())
+    h.update(open(os.path.join(KANI_DIR, 'Cargo.toml'), 'rb').read())
+    return h.hexdigest()[:16]
+
+
 def run(run, pid, harnesses, jobs=8, total_timeout=900, extra_args=(), mem_gb=24):
     """harnesses: list of dicts {name, role: 'proof'|'witness', note, bounds}.
     Records into run.kani; returns dict name -> verdict."""
@@ -58,7 +67,22 @@ def run(run, pid, harnesses, jobs=8, total_timeout=900, extra_args=(), mem_gb=24
                            capture_output=True, text=True)
     if build.returncode != 0:
         raise Inconclusive('kani harness crate does not build against the current tree:\n' + (build.stdout + build.stderr)[-3000:])
-    pending = list(harnesses)
+    # memoisation: a harness already decided for exactly this source tree + harness crate (e.g. by the check of another property that
+    # shares it) is not run again; the stored log is re-classified and marked as reused in the evidence
+    key = _key()
+    memo_dir = os.path.join(engine.CACHE, 'kani-memo')
+    os.makedirs(memo_dir, exist_ok=True)
+    pending = []
+    for h in harnesses:
+        mp = os.path.join(memo_dir, '%s-%s.log' % (key, h['name']))
+        if os.path.exists(mp) and os.environ.get('VERIF_KANI_NOMEMO') != '1':
+            txt = open(mp).read()
+            m0 = re.search(r'^#wall=([\d.]+) rc=(-?\d+)', txt)
+            n_before = len(run.kani)
+            verdicts[h['name']] = _classify(run, pid, h, txt, int(m0.group(2)), float(m0.group(1)))
+            run.kani[-1]['reused_from_same_tree'] = True
+        else:
+            pending.append(h)
     running = []
     lim_kb = mem_gb * 1024 * 1024
     while pending or running:
@@ -86,6 +110,10 @@ def run(run, pid, harnesses, jobs=8, total_timeout=900, extra_args=(), mem_gb=24
             txt = open(lp).read()
             dt = time.time() - ts
             verdicts[h['name']] = _classify(run, pid, h, txt, rc, dt)
+            if verdicts[h['name']] in ('SUCCESSFUL', 'FAILED'):
+                with open(os.path.join(memo_dir, '%s-%s.log' % (key, h['name'])), 'w') as mf:
+                    mf.write('#wall=%.1f rc=%d\n' % (dt, rc))
+                    mf.write(txt)
         running = still
     return verdicts
 
